@@ -95,6 +95,13 @@ def rule_window(ctx):
         for w_ in wargs:
             ast.fix_missing_locations(w_)
             w_._parent = c
+    fnd = ctx.func(FILESET, "FileSet.find")
+    p_start, p_end = fnd.params[1], fnd.params[2]
+    kwv = {k.arg: k.value for k in c.keywords}
+    if len(wargs) == 0 and p_start in kwv and p_end in kwv:
+        wargs = [kwv[p_start], kwv[p_end]]
+    elif len(wargs) == 1 and p_end in kwv:
+        wargs = [wargs[0], kwv[p_end]]
     if len(wargs) < 2:
         raise AnalysisError("find_closest: find() is not called with (start, end)")
     sname, ename = norm(wargs[0]), norm(wargs[1])
@@ -152,19 +159,37 @@ def rule_cover(ctx):
                 ee = elementwise_elt(sdef[0])
                 if ee is not None:
                     return ee
+            if sdef and isinstance(sdef[0], ast.List) and not sdef[0].elts:
+                # an accumulator filled by one loop: acc = []; for x in X: acc.append(E(x))   ==   [E(x) for x in X]
+                fills = [l_ for l_ in flow.stmts if isinstance(l_, ast.For) and l_ is not lp and len(l_.body) == 1 and isinstance(l_.body[0], ast.Expr)
+                         and isinstance(l_.body[0].value, ast.Call) and isinstance(l_.body[0].value.func, ast.Attribute) and l_.body[0].value.func.attr == "append"
+                         and norm(l_.body[0].value.func.value) == e.value.id and len(l_.body[0].value.args) == 1]
+                others = [c_ for c_ in calls_in(f.node) if isinstance(c_.func, ast.Attribute) and norm(c_.func.value) == e.value.id
+                          and c_.func.attr in ("append", "extend", "insert", "pop", "remove", "sort", "reverse") and not any(c_ is fl_.body[0].value for fl_ in fills)]
+                if len(fills) == 1 and not others:
+                    comp = ast.ListComp(elt=fills[0].body[0].value.args[0], generators=[ast.comprehension(target=fills[0].target, iter=fills[0].iter, ifs=[], is_async=0)])
+                    ee = elementwise_elt(ast.fix_missing_locations(comp))
+                    if ee is not None:
+                        return ee
         return e
     ifs = [s for s in lp.body if isinstance(s, ast.If)]
     if ifs:
         t = ifs[0].test
         r = [s for s in ifs[0].body if isinstance(s, ast.Return)]
         cc = calls_in(t, "interval_contains")
-        if len(cc) == 1 and len(cc[0].args) == 2 and r:
-            cov = at_index(cc[0].args[0])
+        covexpr = cc[0].args[0] if len(cc) == 1 and len(cc[0].args) == 2 else None
+        if covexpr is None and not cc:
+            # the containment written out as comparisons on one loop-bound coverage
+            cands = [n_ for n_ in ast.walk(t) if isinstance(n_, ast.Name) and n_.id in binds and str(norm(at_index(n_))).endswith(".times")]
+            if cands and len({c_.id for c_ in cands}) == 1:
+                covexpr = cands[0]
+        if covexpr is not None and r:
+            cov = at_index(covexpr)
             ret = at_index(r[0].value)
             from .C03 import TreeFacts
             T = TreeFacts(ctx)
             tt = {}
-            key = norm(cc[0].args[0])
+            key = norm(covexpr)
             for a, b, p in ((0, 2, 1), (0, 2, 0), (0, 2, 2), (0, 2, 3), (1, 2, 0)):
                 tt[(a, b, p)] = bool(Interp({key: (a, b), ts: p}, {"interval_contains": T.IN, "interval_overlaps": T.OV}).ev(t))
             want = {(0, 2, 1): True, (0, 2, 0): True, (0, 2, 2): True, (0, 2, 3): False, (1, 2, 0): False}
